@@ -266,7 +266,8 @@ pub fn push_to_boundary(t: &mut Tape, g: &mut G) -> Option<(usize, f64)> {
 
 // ------------------------------------------------------------------ G-phys: connected graphs with physical kinematics
 pub fn gen_phys_graph(t: &mut Tape, max_e: usize, max_l: usize, min_omega: f64, dmax: usize) -> Option<G> {
-    let nv = t.range(1, 5);
+    // up to 7 vertices (trees of 6 edges + chords) as far as the edge budget allows
+    let nv = t.range(1, 7.min(max_e.max(2) - 1).max(1));
     let mut edges: Vec<(u8, u8)> = vec![];
     for v in 1..nv {
         let u = t.below(v);
